@@ -30,8 +30,13 @@ for g in layout likely; do
   "$BIN" trace --sessions 1 --gen $g --seed 1 --from 0 --to "$n" --threads 16 > "$OUT/b.sess-$g" &
 done
 wait
+# S7: concurrent callers of the lookup (workload and schedule from the seed)
+CR=${DET_CONC:-2000}
+"$BIN" trace --conc 1 --seed 1 --from 0 --to "$CR" --threads 1 > "$OUT/a.conc" &
+"$BIN" trace --conc 1 --seed 1 --from 0 --to "$CR" --threads 16 > "$OUT/b.conc" &
+wait
 bad=0; lines=0
-for s in $(seq 1 "$SEEDS") likely sess-layout sess-likely; do
+for s in $(seq 1 "$SEEDS") likely sess-layout sess-likely conc; do
   if ! cmp -s "$OUT/a.$s" "$OUT/b.$s"; then bad=$((bad+1)); echo "MISMATCH seed $s"; diff "$OUT/a.$s" "$OUT/b.$s" | head -4; fi
   lines=$((lines + $(wc -l < "$OUT/a.$s")))
 done
